@@ -339,6 +339,22 @@ pub fn run(ctx: &Ctx) -> i32 {
     let sp = special_destinations();
     acc = acc.merge(speclib::report::par_items(&sp, |t, acc| check(t, acc)));
     acc = acc.merge(unsupported_actions());
+    // action-free expressions whose string arguments spell pieces of generated code: the implicit
+    // print is decided by the tree, not by what the program text happens to contain
+    let frags = crate::policy::harvest_fragments();
+    acc = acc.merge(speclib::report::par_items(&frags, |s, acc| {
+        for t in [
+            Expr::Test(Test::Name(s.clone())),
+            Expr::Test(Test::Pool(s.clone())),
+            Expr::Test(Test::Xattr(s.clone())),
+            Expr::Test(Test::XattrMatch("user.hook".into(), s.clone())),
+            Expr::or(Expr::Test(Test::IPath(s.clone())), Expr::Test(Test::Name("x".into()))),
+            Expr::and(Expr::Test(Test::Path(s.clone())), Expr::Action(Action::Quit)),
+        ] {
+            check(&t, acc);
+        }
+    }));
+    acc.count("generated_looking_strings", frags.len() as u64);
     let mut h = Acc::new();
     histories(&mut h);
     acc = acc.merge(h);
